@@ -90,7 +90,7 @@ PROPS['C03'] = {
                  'Yabgp.C01_hold_timer_expires', 'Yabgp.C01_keepalive_msg', 'Yabgp.C01_update_msg',
                  'Yabgp.C01_open_accepted', 'Yabgp.C01_tcp_connected'],
     'genagree': SESSION_GEN,
-    'suites': ['session'],
+    'suites': ['session', 'hostile'],
     'cannot': SESSION_CANNOT,
     'level_text': 'Lean 4 invariant proved by induction over ALL event sequences from boot (any configuration, any peer '
                   'schedule, any same-instant order of expiry and arrival, any number of sessions): in OpenConfirm / '
